@@ -122,3 +122,20 @@ def extras_plain(ps: 'Seq[YPair]', known: 'Set[str]', i: int) -> bool:
     return (extras_plain(ps, known, i - 1)
             and ps[i - 1].k.kind == SCALAR and ps[i - 1].k.tag == STR_TAG
             and (in_strs(ps[i - 1].k.val, known) or plain(ps[i - 1].v)))
+
+
+# ---- sweeten order on dumping: the same rule as savorize (C10, C06)
+
+@spec
+def swe_order_b(c: 'Ty', i: int) -> 'Seq[Ty]':
+    if i <= 0:
+        return empty_tys()
+    return swe_order_b(c, i - 1) + (
+        swe_order(cls_bases(c)[i - 1]) if reg_has(cls_bases(c)[i - 1])
+        else empty_tys())
+
+
+@spec
+def swe_order(c: 'Ty') -> 'Seq[Ty]':
+    return swe_order_b(c, len(cls_bases(c))) + (
+        [c] if cls_own_sweeten(c) else empty_tys())
